@@ -35,8 +35,39 @@ impl<T> Drop for MRef<T> {
     }
 }
 
+/// An honest user-defined Buf (only the three required methods; every other method is the trait's
+/// default body): hands out chunks of at most `max_chunk` bytes and, after its real data, `extra`
+/// virtual filler bytes (0x5A) - so `remaining()` can be close to usize::MAX without any allocation.
+pub struct UserBuf {
+    pub data: Vec<u8>,
+    pub pos: usize,
+    pub max_chunk: usize,
+    pub extra: usize,
+}
+pub static FILLER: [u8; 64] = [0x5A; 64];
+impl Buf for UserBuf {
+    fn remaining(&self) -> usize {
+        (self.data.len() - self.pos).saturating_add(self.extra)
+    }
+    fn chunk(&self) -> &[u8] {
+        if self.pos < self.data.len() {
+            let end = (self.pos + self.max_chunk.max(1)).min(self.data.len());
+            &self.data[self.pos..end]
+        } else {
+            &FILLER[..self.extra.min(64).min(self.max_chunk.max(1))]
+        }
+    }
+    fn advance(&mut self, cnt: usize) {
+        assert!(cnt <= self.remaining(), "advance past the end of a UserBuf");
+        let real = cnt.min(self.data.len() - self.pos);
+        self.pos += real;
+        self.extra -= cnt - real;
+    }
+}
+
 pub enum Node {
     Slice(&'static [u8]),
+    User(UserBuf),
     Bytes(Bytes),
     BytesMut(BytesMut),
     Deque(VecDeque<u8>),
